@@ -396,6 +396,7 @@ class ModuleNormaliser:
         # 4. temporaries and renames
         for q, (fn, owner, cls) in list(self.defs.items()):
             if q in self.inv.get("functions", {}):
+                self._rename_back(q, fn)
                 self._propagate_temporaries(q, fn)
                 self._rename_back(q, fn)
         _fix(self.tree)
